@@ -16,8 +16,8 @@ static const char *hv_names[HX_NN] = { "ok", "outcome_depends_on_history_or_heap
 
 typedef struct { uint64_t probes[16]; uint64_t worlds, calls; unsigned char state_bits[2048]; uint64_t stride_dirty; } hcov_t;
 static hcov_t *cov;
-enum { Q_RECYCLED_IN_PROBE, Q_CACHE_WARM, Q_PREFIX_CALLS, Q_JUNK_DEST, Q_SMALL_KNOBS, Q_HEADER_POOL_GREW, Q_VIEW_OPERAND, Q_FLAT_OPERAND, Q_BEYOND_512_COLUMNS, Q_NQ };
-static const char *q_names[Q_NQ] = { "probe_call_received_recycled_block", "probe_call_started_with_warm_block_cache", "prefix_calls_executed", "destination_prefilled_with_junk", "small_cache_knobs", "header_pool_grew", "probe_operand_is_a_view", "probe_operand_flat_20000_by_few", "probe_operand_beyond_512_columns" };
+enum { Q_RECYCLED_IN_PROBE, Q_CACHE_WARM, Q_PREFIX_CALLS, Q_JUNK_DEST, Q_SMALL_KNOBS, Q_HEADER_POOL_GREW, Q_VIEW_OPERAND, Q_FLAT_OPERAND, Q_BEYOND_512_COLUMNS, Q_KEPT_UNTIL_FINI, Q_NQ };
+static const char *q_names[Q_NQ] = { "probe_call_received_recycled_block", "probe_call_started_with_warm_block_cache", "prefix_calls_executed", "destination_prefilled_with_junk", "small_cache_knobs", "header_pool_grew", "probe_operand_is_a_view", "probe_operand_flat_20000_by_few", "probe_operand_beyond_512_columns", "storage_kept_by_the_library_until_finalisation" };
 
 typedef struct { const char *text; } runarg_t;
 
@@ -57,6 +57,14 @@ static int header_room(const lib_t *L) {
   return room;
 }
 static int g_header_room = -1;
+
+/* The ledger differs from its level before the calls although the program freed everything and the block cache was cleaned.  Storage
+ * the library keeps for re-use until it is finalised (an empty header block, say) is its own business; a temporary an operation forgot
+ * is not.  They are told apart by finalising: what survives m4ri_fini() - compared with the level measured the same way on the pristine
+ * library - was leaked. */
+static size_t g_fini_level;
+static size_t level_after_fini(const lib_t *L) { L->m4ri_mmc_cleanup(); L->m4ri_fini(); size_t n = heap_live_count(); L->m4ri_init(); return n; }
+static int really_leaked(const lib_t *L) { size_t n = level_after_fini(L); if (n != g_fini_level) return 1; cov->probes[Q_KEPT_UNTIL_FINI]++; return 0; }
 
 static int viol, viol_world, viol_line;
 static char viol_note[200];
@@ -100,9 +108,9 @@ static void child_run(void *ud) {
   }
   uint64_t out0 = 0;
   int have0 = 0;
-  L->m4ri_mmc_cleanup();
+  g_fini_level = level_after_fini(L);
   g_header_room = header_room(L); /* calibration on the pristine library */
-  L->m4ri_mmc_cleanup();
+  (void)level_after_fini(L);
   for (int k = 0; k < nworlds && !viol; k++) {
     /* world configuration */
     int fill = FILL_ZERO, rec = RECYCLE_OFF;
@@ -133,13 +141,13 @@ static void child_run(void *ud) {
       if (pr >= 0) { char b[120]; snprintf(b, sizeof b, "register %d after prefix line: %.80s", pr, lines[i]); flag(HX_DIRTY_PADDING, k, i, b); }
     }
     ctx_free_all(&c);
-    if (L->mmc_cache) { int s = 0; for (int i = 0; i < 16; i++) if (L->mmc_cache[i].size) s++; if (s) cov->probes[Q_CACHE_WARM]++; cov->state_bits[(s * 8 + fill) >> 3] |= (unsigned char)(1u << ((s * 8 + fill) & 7)); }
+    if (L->mmc_cache) { int s = 0; for (int i = 0; i < L->mmc_nblocks && i < 31; i++) if (L->mmc_cache[i].size) s++; if (s) cov->probes[Q_CACHE_WARM]++; cov->state_bits[(s * 8 + fill) >> 3] |= (unsigned char)(1u << ((s * 8 + fill) & 7)); }
     if (L->mzdcache && count_size(sizeof(mzd_t) * 64 + 64) > hb0) cov->probes[Q_HEADER_POOL_GREW]++;
     /* prefix phase balance: a temporary leaked by one of the prefix calls is C11's business whatever the world */
     L->m4ri_mmc_cleanup();
     size_t live1 = heap_live_count();
     uint64_t dig1 = heap_live_digest();
-    if (!viol && (live1 != live0 || dig1 != dig0)) {
+    if (!viol && (live1 != live0 || dig1 != dig0) && really_leaked(L)) {
       fprintf(stderr, "ledger error: %zu live library blocks after the history prefix, %zu expected\n", live1, live0);
       heap_iter_live(dump_live, &viol_site);
       flag(HX_LEAK, k, -2, "library allocations outlive a call of the history prefix although everything it returned was freed");
@@ -178,7 +186,7 @@ static void child_run(void *ud) {
       if (room < g_header_room) { char b[140]; snprintf(b, sizeof b, "header pool has room for %d headers before it grows, %d on the pristine library: a slot is still occupied although the program freed everything", room, g_header_room); flag(HX_HEADER_SLOT_LEAK, k, -1, b); }
     }
     L->m4ri_mmc_cleanup();
-    if (!viol && (heap_live_count() != live0 || heap_live_digest() != dig0)) {
+    if (!viol && (heap_live_count() != live0 || heap_live_digest() != dig0) && really_leaked(L)) {
       fprintf(stderr, "ledger error: %zu live library blocks, %zu expected\n", heap_live_count(), live0);
       heap_iter_live(dump_live, &viol_site);
       flag(HX_LEAK, k, -1, "library allocations outlive the call although everything it returned was freed");
